@@ -432,6 +432,9 @@ Fixpoint split_group (rs : list sysres) : list sysres * list sysres :=
   end.
 
 Definition new_calls (s s' : st) : list obs := map call_obs (skipn (length (s_calls s)) (s_calls s')).
+(* the search forgets the invocations it has already matched and the ghost byte log (no step reads s_calls or s_io;
+   keeps the search's memory small) *)
+Definition clear_calls (s : st) : st := mkSt (s_op s) (s_phase s) (s_closed s) (s_stopped s) (s_fderr s) [] [].
 
 (* every visited state costs one unit of `budget`; the result carries what is left (0 = the search was cut off) *)
 Fixpoint explain (fuel : nat) (c : cfg) (may_stop may_fderr : bool) (s : st) (rs : list sysres) (ob : list obs)
@@ -443,7 +446,7 @@ Fixpoint explain (fuel : nat) (c : cfg) (may_stop may_fderr : bool) (s : st) (rs
       let budget := budget - 1 in
       let try (s' : st) (rs' : list sysres) (b : Z) : bool * Z :=
         match strip_prefix (new_calls s s') ob with
-        | Some ob' => explain fuel c may_stop may_fderr s' rs' ob' b
+        | Some ob' => explain fuel c may_stop may_fderr (clear_calls s') rs' ob' b
         | None => (false, b)
         end in
       match s_phase s with
